@@ -217,6 +217,68 @@ SEEDS = {
     'C19-rectangular-size-squared': ('C19', 'two-number sizes read as L x L x L', 'a rectangular 2-D size such as 4x6', ''),
     'C20-qubit-template-reused': ('C20', 'qubit descriptions copied from the first qubit, only axis and location refreshed', 'codes whose qubit drawing depends on the qubit (rotated 3-D codes)', 'first ended in exit 2: copy.deepcopy interpreted, representations are per-location dictionaries, every path of the handler is judged (R20.4)'),
     'C20-noise-deformation-dropped-when-symmetric': ('C20', 'noise deformation dropped when r_x == r_z', "'Pure Y' noise with the 'XY' deformation", 'missed at first: every noise direction x noise deformation of the menu is requested; dropping is accepted exactly when the direction is invariant under the swap (R20.4)'),
+    # ---- round 4
+    'C02-shared-parity-check-cache': ('C02', 'stabilizer_matrix served from a module-level cache keyed by (class name, size, deformation): another code class of the same name and size gets the first one\'s matrix',
+                                      'two user-defined code classes with the same name and size in one process',
+                                      'reported by C06/C11 only at first: the module-level state rule now also runs over the members of the code classes (R02.5)'),
+    'C02-row-mask-uint8-dot': ('C02', 'x_indices/z_indices from Hx.dot(ones(uint8)) > 0: row weights wrap modulo 256', 'a CSS stabilizer whose X or Z part has weight 256', ''),
+    'C03-dense-bitand-float': ('C03', 'dense bs_prod reduces with & 1 instead of % 2: TypeError when NumPy promotes the product to float64',
+                               'dense operands of dtype uint64 and a signed integer type (to_bsf gives np.uint, a literal array int64)',
+                               'reported for the wrong reason at first ("result is TOP"): a lost value is now undecided; Poly & 1 modelled as parity; dense dtype pairs added to R03.1; a TypeError on concrete numbers is a raising path'),
+    'C03-from-bsf-stored-zeros': ('C03', 'from_bsf reads .indices of a sparse row: explicitly stored zeros come back as Paulis', 'a sparse row after s = a + b; s.data %= 2', ''),
+    'C04-single-row-hstack-interleave': ('C04', 'get_effective_error of a one-row 2-D batch uses hstack: [X0,Z0,X1,Z1] instead of [X|Z]', 'error of shape (1, 2n) on a code with k >= 2', ''),
+    'C04-cached-plaquette-dict': ('C04', 'RotatedPlanar2DCode.get_stabilizer returns a memoised dict that deform() rewrites in place: later undeformed instances get XZZX generators with undeformed logicals',
+                                  'a deformed and an undeformed instance of the same size in one process',
+                                  'reported by C02/C06/C08 only at first: the frozen rule now also runs in C04 (R04.4)'),
+    'C05-get-weights-inplace-cache': ('C05', 'get_weights adds py into the memoised px, pz in place: weights drift with every decoder built, the zero syndrome gets a non-zero matching',
+                                      'seven or more decoders built from one noise model object and rate',
+                                      'reported by C06 only at first: the frozen rule now also runs in C05 over error models and decoders (R05.5)'),
+    'C05-bposd-skip-zero-prior-sector': ('C05', 'BP-OSD returns zeros for a sector whose prior is identically zero instead of decoding it', 'pure X or pure Z noise configured, syndrome with the other component',
+                                         'exit 2 at first: zeros(n) concatenated with a correction is typed as an unfilled half; undecided facts no longer hide violations found on other paths'),
+    'C06-matching-memo-sectorless-key': ('C06', 'matchings memoised per decoder by the bytes of the sector syndrome alone: a Z-sector pattern answers a later X-sector query', 'one decoder, same defect pattern in both sectors', ''),
+    'C06-bposd-random-schedule': ('C06', 'random_schedule_seed set on the ldpc decoders: the shuffle generator lives in the long-lived object and advances with every call', 'a reused decoder and a syndrome on which BP is order-sensitive',
+                                  'missed at first: the configuration of the ldpc object (constructor keywords and attribute stores) is modelled, random schedules are reported (R06.4), unknown options are undecided; attribute stores on tracked non-project objects are no longer dropped'),
+    'C07-deformation-skipped-when-rx-eq-rz': ('C07', 'probability_distribution skips the deformation when r_x == r_z', 'XY deformation with r_x = r_z != r_y',
+                                             'missed at first: R08.6/R07.8 now run for the generic direction and the three families with two equal rates'),
+    'C07-fast-choice-bisect-left': ('C07', 'fast_choice with bisect_left: a variate exactly on a cumulative boundary selects the previous letter', 'u on a boundary (u = 0 at p = 1)', ''),
+    'C08-deform-noop-same-kwarg-names': ('C08', 'deform returns early when name and the NAMES of the keyword arguments equal the last request', 'deform(XZZX, axis=x) then deform(XZZX, axis=y)',
+                                         'missed at first: R08.4 scenarios with the same name again (other keyword value, keyword dropped, same request); the abstract table depends on the keyword value'),
+    'C08-noise-skip-when-x-fixed': ('C08', 'noise-side deformation skipped on qubits whose table fixes X: XY never applied', 'XY deformation with r_y != r_z', ''),
+    'C09-sweep-visited-states-persist': ('C09', 'SweepDecoder3D keeps the visited automaton states across decode calls: a repeated syndrome is not swept', 'same face syndrome decoded twice by one decoder',
+                                         'reported by C06 only at first: the decoder state rule now also runs in C09 over the matching / union-find / sweep decoders (R09.2)'),
+    'C09-vectorised-permutation-overwrite': ('C09', 'vectorised deformation permutation reads arrays it has already overwritten: p_Z undeformed under XZZX', 'XZZX noise with r_x != r_z',
+                                            'reported by C07/C08 only at first: C09 now includes the deformed-channel obligation next to weights-vs-distribution (R09.1)'),
+    'C10-bounding-box-wrong-axis': ('C10', 'flip_edge pre-filter bounds the y coordinate of a face with 2*L_x', 'RotatedPlanar3DCode with L_y > L_x, edge in the far-y strip',
+                                    'missed at first: a coordinate compared with / wrapped by the lattice extent of another axis is reported (R10.4 axes)'),
+    'C10-site-keeps-identity-entries': ('C10', 'site() keeps cancelled entries as I and decode fills Z from the keys: twice-flipped edges stay in the correction', 'an automaton run that revisits an edge', ''),
+    'C11-trivial-syndrome-skips-error': ('C11', 'run_once skips the decoder on a zero syndrome and classifies the zero vector instead of the error', 'a sampled non-trivial logical operator', ''),
+    'C11-deformed-generate-drops-rng': ('C11', 'generate does not pass rng to fast_choice for deformed models: global random.random()', 'deformed noise and a seeded run',
+                                        'missed at first (C07 exit 2): R11.3 threading obligation for every call of a function with an optional generator; C07 judges every path and no longer judges the source of the variate'),
+    'C12-resume-loop-final-save-rename': ('C12', 'loop over the remaining trials but the final save still tests the absolute index', 'resumed run whose last trial is not on a periodic save', ''),
+    'C12-load-results-forward-search': ('C12', 'load_results searches only entries after the simulation\'s own position: grown specs lose saved trials', 'a rate appended to a spec with two sizes', ''),
+    'C13-list-ranges-mutable-default': ('C13', 'list-of-ranges helper accumulates into a mutable default argument', 'two parses in one process',
+                                        'missed at first: mutable defaults modified in place are module-level state (shared global-state rule, R13.2); second expansion runs in the same interpreter'),
+    'C13-decoder-range-aliased-dict': ('C13', 'decoder range appends the same dict object: every decoder gets the last parameter set', 'two or more decoder parameter sets', ''),
+    'C14-delete-existing-glob': ('C14', '--delete-existing removes every results_*.json* before the loop: a node that starts later erases the files of earlier nodes', 'two or more nodes not starting together',
+                                 'missed at first: R14.3 runs the nodes one after the other on a shared abstract file system with delete_existing'),
+    'C14-single-trial-never-saved': ('C14', 'the final save folded into the i_trial > 0 block: a task with one trial never writes its file', 'trials // tasks per input == 1',
+                                     'reported by C12 only at first: the accounting rule runs in C14 for tasks starting from nothing (R14.4)'),
+    'C15-class-level-results-paths': ('C15', 'results_paths extended on the class-level list: every Analysis re-reads the paths of earlier ones', 'two Analysis objects in one process', ''),
+    'C15-read-entry-drops-all-zero': ('C15', 'read_entry drops records whose effective_error has no non-zero entry', 'a chunk without a logical error',
+                                      'missed at first: read_entry is evaluated on records without errors, with only failures and outside the code space (R15.6)'),
+    'C16-nfail-codespace-only': ('C16', 'n_fail counts only failures inside the code space: the bootstrap resamples from other counts than p_est', 'trials that end outside the code space',
+                                 'exit 2 in C15 at first: row-wise lambdas over success/codespace are decided on three independent mixes (R15.3); C16 includes the input-table obligations (R16.5)'),
+    'C16-nth-positional-concat': ('C16', 'identity columns taken with groupby.nth(0) and glued on by position: codes attached to the counts of other groups', 'rows not in sorted key order',
+                                  'exit 2 in C15 at first: how each side-by-side frame is indexed is decided (R15.1 aligned, R16.5)'),
+    'C18-count-based-probability-override': ('C18', 'PauliErrorModel.error_probability override prices errors by letter counts with undeformed rates unless r_x != r_z', 'XY deformation with r_x = r_z != r_y',
+                                             'missed at first: error_probability as resolved on the concrete class is compared with the per-qubit channel of the same object (R18.4)'),
+    'C18-loglik-memo-by-counts': ('C18', 'log-likelihoods memoised by (rate, #X, #Y, #Z)', 'deformed noise, chain revisiting the same counts elsewhere', ''),
+    'C19-code-cache-sorted-values': ('C19', 'codes of a range built once per (name, sorted parameter values): permuted sizes share one object', 'sizes that are permutations of each other',
+                                     'missed at first: the tagged specifications of R13.2 and a request of R19.4 contain permuted sizes / one value under two names'),
+    'C19-direction-rounded': ('C19', 'direction rounded to 6 decimals', 'bias ratio >= 1e4', ''),
+    'C20-lattice-size-clamp': ('C20', 'sizes clamped to [1, 12] on the server: coprime (13, 12) answered as 12 x 12', 'L = 12 with coprime dimensions',
+                               'missed at first: send_code_data is evaluated at both ends of the lattice-size menu of main.js with coprime (R20.4)'),
+    'C20-decoder-offer-stale-global': ('C20', 'send_decoder_names iterates the module-level decoder table while add_decoder fills the per-instance copy', 'add_decoder then /decoder-names', ''),
 }
 EXTRA_FILE = os.path.join(HERE, 'seeded', 'EXTRA.json')
 
@@ -242,12 +304,23 @@ def main():
     if os.path.exists(EXTRA_FILE):
         seeds.update({k: tuple(v) for k, v in json.load(open(EXTRA_FILE)).items()})
     rows = []
-    for sid in sorted(seeds):
+    from concurrent.futures import ThreadPoolExecutor
+    todo = [sid for sid in sorted(seeds) if os.path.isdir(os.path.join(HERE, 'seeded', sid))]
+    only = set(sys.argv[1:])
+    cached = {}
+    if only:                      # tools/seed_meta.py <id> ...: re-run only these, reuse meta.json of the others
+        for sid in todo:
+            mp = os.path.join(HERE, 'seeded', sid, 'meta.json')
+            if sid not in only and os.path.exists(mp):
+                mj = json.load(open(mp))
+                cached[sid] = ([tuple(x.split(' ', 1)) for x in mj.get('reported_by', [])], mj.get('analysis_errors', []))
+    with ThreadPoolExecutor(max_workers=14) as ex:
+        results = dict(zip([t for t in todo if t not in cached], ex.map(caught_by, [t for t in todo if t not in cached])))
+    results.update(cached)
+    for sid in todo:
         d = os.path.join(HERE, 'seeded', sid)
-        if not os.path.isdir(d):
-            continue
         prop, breaks, needs, note = seeds[sid]
-        rules, err = caught_by(sid)
+        rules, err = results[sid]
         confirm = open(os.path.join(d, 'confirm.txt')).read().strip().splitlines()[-1] if os.path.exists(os.path.join(d, 'confirm.txt')) else ''
         meta = {'id': sid, 'property': prop, 'breaks': breaks, 'needs_to_manifest': needs,
                 'confirmed': confirm,
